@@ -178,15 +178,16 @@ def run_r3(ctx, rule):
             rule.bad("%s/next_clause" % m, "anchor missing", kind="anchor-missing")
             continue
         found_lits = False
-        for f in fns:
+        # (the literal / group parsers may be called from next_clause, its closures, or a private helper of the parser)
+        for f in [f for i, f in facts.fns.items() if norm(i).startswith("flussab_cnf::%s::Parser::" % m) and f.crate == "flussab_cnf"]:
             sy = sym(f)
             for bb, t in f.calls():
                 cn = norm(util.cname(t))
                 if cn == TOK_C + "clause_lits":
                     found_lits = True
                     a = [sy.operand(x) for x in t["args"]]
-                    lim = upvar_field(facts, f, a[2]) if a[2][0] == "f" else None
-                    hard = upvar_field(facts, f, a[3]) if a[3][0] == "f" else None
+                    lim = upvar_field(facts, f, a[2]) if a[2][0] in ("f", "l") else None
+                    hard = upvar_field(facts, f, a[3]) if a[3][0] in ("f", "l") else None
                     rule.check(lim == "lit_limit" and hard == "lit_limit_is_hard", "%s/clause_lits-limit" % m, "%s: literals are checked against lit_limit / lit_limit_is_hard (got %s, %s)" % (m, lim, hard), f.loc(bb))
                 if cn == TOK_C + "clause_group":
                     a = [sy.operand(x) for x in t["args"]]
@@ -200,9 +201,23 @@ def run_r3(ctx, rule):
         attempt = [bb for bb, t in f.calls() if norm(util.cname(t)) == first]
         eofs = [bb for bb, t in f.calls() if norm(util.cname(t)) == TOK_C + "eof"]
 
+        def limit_expr(e, depth=0):
+            if mentions(e, lambda x: x[0] == "f" and x[2] in ("clause_limit", "clause_limit_active", "clause_count")):
+                return True
+            if depth > 2:
+                return False
+            # a named condition (`let clause_allowed = count != limit || !active;`): some definition of the local computes it from the limit state
+            locs = []
+            mentions(e, lambda x: x[0] == "l" and not locs.append(x[1]) and False)
+            for l in locs:
+                for d in sy.defs.get(l, []):
+                    if d[0] == "stmt" and limit_expr(sy.rvalue(d[3], 1), depth + 1):
+                        return True
+            return False
+
         def mentions_limit(fa):
             e = fa[1] if fa[0] == "bool" else fa
-            return mentions(e, lambda x: x[0] == "f" and x[2] in ("clause_limit", "clause_limit_active", "clause_count"))
+            return limit_expr(e)
 
         for what, sites in (("attempt", attempt), ("clean-end", eofs)):
             if not sites:
@@ -226,17 +241,23 @@ def run_r3(ctx, rule):
         incs = [bi for f2, bi, si, name in util.field_stores(facts, "flussab_cnf::%s::Parser" % m) if f2 in fns and name == "clause_count"]
         rule.check(len(incs) == 1, "%s/next_clause/count-once" % m, "%s: clause_count is incremented at exactly one place" % m, f.loc())
     # var_count is limited by L::MAX_DIMACS
-    f = [x for i, x in facts.fns.items() if norm(i) == TOK_C + "var_count::{closure#1}"]
-    if f:
-        f = f[0]
-        sy = sym(f)
+    fs = [x for i, x in facts.fns.items() if norm(i).startswith(TOK_C + "var_count")]
+    if fs:
         ok = False
-        for bi, b in enumerate(f.blocks):
-            for s in b["stmts"]:
-                if s["k"] == "assign" and s["rv"]["k"] == "bin" and s["rv"]["op"] == "Gt":
-                    e = sy.rvalue(s["rv"])
-                    if "MAX_DIMACS" in str(e[3]):
-                        ok = True
+        f = fs[0]
+        for f2 in fs:
+            sy = sym(f2)
+            for bi, b in enumerate(f2.blocks):
+                for s in b["stmts"]:
+                    if s["k"] == "assign" and s["rv"]["k"] == "bin" and s["rv"]["op"] in ("Gt", "Lt", "Le", "Ge"):
+                        e = sy.rvalue(s["rv"])
+                        left, right = "MAX_DIMACS" in str(e[2]), "MAX_DIMACS" in str(e[3])
+                        # count > MAX | MAX < count (the error condition) or count <= MAX | MAX >= count (its negation):
+                        # MAX itself is accepted, MAX + 1 is not
+                        if (right and not left and e[1] in ("Gt", "Le")) or (left and not right and e[1] in ("Lt", "Ge")):
+                            if any(norm(util.cname(t)).endswith("exceeds_var_count") for f3 in fs for _, t in f3.calls()):
+                                ok = True
+                                f = f2
         rule.check(ok, "var_count/max", "the declared variable count is rejected when it exceeds L::MAX_DIMACS", f.loc())
     else:
         rule.bad("var_count/closure", "anchor missing: var_count check closure", kind="anchor-missing")
@@ -388,6 +409,15 @@ def run_r6(ctx, rule):
                 found = True
                 g = guards.holds(f, bi, lambda fa: guards.cmp_matches(fa, "Le", lambda x: x == d, lambda x: x == a))
                 rule.check(bool(g) and a == ("l", 2), "delta_code/guard", "code - delta only behind delta <= code (%s)" % (guards.show_fact(f, g[1]) if g else "unguarded"), f.loc(bi))
+    for bb, t in f.calls():
+        cn = norm(util.cname(t))
+        if cn.endswith("::checked_sub"):
+            a, d = sy.operand(t["args"][0]), sy.operand(t["args"][1])
+            found = True
+            rule.check(a == ("l", 2) and mentions(d, lambda x: x[0] == "call" and norm(x[2]).endswith("binary_uint")), "delta_code/guard", "code - delta through checked_sub(code, delta): only the Some answer is a code", f.loc(bb))
+        elif cn.endswith(("::wrapping_sub", "::saturating_sub", "::overflowing_sub")):
+            found = True
+            rule.bad("delta_code/guard", "delta_code subtracts with %s: a delta above its reference code must be an error" % cn.rsplit("::", 1)[-1], f.loc(bb))
     if not found:
         rule.bad("delta_code/sub", "anchor missing: subtraction in delta_code", kind="anchor-missing")
     # binary_uint: the shift-back test rejects values that do not fit
